@@ -18,3 +18,23 @@ Theorem C11_issuer_history : forall o alg k calls n,
   option_map (fun ar => snd (issuer_step o (issuer_new alg k) (fst ar) (snd ar))) (nth_error calls n).
 Proof. exact MachineFacts.C11_issuer_history. Qed.
 Print Assumptions C11_issuer_history.
+
+(* ---- holder (Proofs/HolderFacts.v) ---- *)
+From SDJWT Require Import Model.Holder Proofs.HolderFacts.
+
+(* a presentation depends only on what SDJWTHolder::new parsed, never on fields written by earlier calls *)
+Theorem C11_holder_call_is_fresh : forall o h h' sel a now,
+  same_core h h' -> snd (present o h sel a now) = snd (present o h' sel a now).
+Proof. exact present_same_core. Qed.
+Print Assumptions C11_holder_call_is_fresh.
+
+(* every call, failing or not, leaves what `new` parsed untouched *)
+Theorem C11_holder_core_preserved : forall o h sel a now, same_core h (fst (present o h sel a now)).
+Proof. exact present_keeps_core. Qed.
+Print Assumptions C11_holder_core_preserved.
+
+(* hence the k-th result of ANY call sequence is the fresh-instance result on the k-th arguments *)
+Theorem C11_holder_history : forall o h calls k,
+  nth_error (run o h calls) k = option_map (fun '(sel, a, now) => snd (present o h sel a now)) (nth_error calls k).
+Proof. exact C11_history_independent. Qed.
+Print Assumptions C11_holder_history.
